@@ -92,13 +92,14 @@ def main():
             print(out[-1200:])
     finally:
         sh(["git", "-C", "/repo", "worktree", "remove", "--force", wt])
-        import glob
-        for d in glob.glob(os.path.join(VERIF, "build", pid + "-*")) + glob.glob(os.path.join(VERIF, "build", "found", pid + "-*")):
+        import hashlib
+        bname = "%s-%s" % (pid, hashlib.sha256(os.path.abspath(wt).encode()).hexdigest()[:8])
+        for d in (os.path.join(VERIF, "build", bname), os.path.join(VERIF, "build", "found", bname)):
             shutil.rmtree(d, ignore_errors=True)
     dst = os.path.join(VERIF, "seeded", pid, name)
     os.makedirs(dst, exist_ok=True)
     for f in ("patch.diff", "demo_test.go"):
-        if os.path.exists(os.path.join(src, f)):
+        if os.path.exists(os.path.join(src, f)) and os.path.abspath(src) != os.path.abspath(dst):
             shutil.copy(os.path.join(src, f), os.path.join(dst, f))
     meta["verified"] = verdict
     meta["what_i_ran"] = "lib/seedeval.py: demo without/with the change in a scratch worktree, the touched module's `go test ./...` with the change, then ./check %s --repo <worktree> --tier %s" % (pid, tier)
